@@ -4,6 +4,8 @@ mod archs;
 mod bv;
 mod explore;
 mod gen;
+mod lifter;
+mod x86gen;
 mod refil;
 mod props;
 mod report;
